@@ -2,6 +2,7 @@ package regclient
 
 import (
 	"archive/tar"
+	"bytes"
 	"cmp"
 	"compress/gzip"
 	"context"
@@ -1328,14 +1329,14 @@ func (rc *RegClient) ImageImport(ctx context.Context, r ref.Ref, rs io.ReadSeeke
 	return nil
 }
 
-func (rc *RegClient) imageImportBlob(ctx context.Context, r ref.Ref, desc descriptor.Descriptor, trd *tarReadData) error {
+func (rc *RegClient) imageImportBlob(ctx context.Context, r ref.Ref, desc descriptor.Descriptor, rdr io.Reader) error {
 	// skip if blob already exists
 	_, err := rc.BlobHead(ctx, r, desc)
 	if err == nil {
 		return nil
 	}
 	// upload blob
-	_, err = rc.BlobPut(ctx, r, desc, trd.tr)
+	_, err = rc.BlobPut(ctx, r, desc, rdr)
 	if err != nil {
 		return err
 	}
@@ -1506,15 +1507,15 @@ func (rc *RegClient) imageImportOCIHandleManifest(ctx context.Context, r ref.Ref
 		filename := tarOCILayoutDescPath(d)
 		if !trd.processed[filename] && trd.handlers[filename] == nil {
 			trd.handlers[filename] = func(header *tar.Header, trd *tarReadData) error {
-				b, err := io.ReadAll(trd.tr)
-				if err != nil {
-					return err
-				}
 				switch d.MediaType {
 				case mediatype.Docker1Manifest, mediatype.Docker1ManifestSigned,
 					mediatype.Docker2Manifest, mediatype.Docker2ManifestList,
 					mediatype.OCI1Manifest, mediatype.OCI1ManifestList:
 					// known manifest media types
+					b, err := io.ReadAll(trd.tr)
+					if err != nil {
+						return err
+					}
 					md, err := manifest.New(manifest.WithDesc(d), manifest.WithRaw(b))
 					if err != nil {
 						return err
@@ -1524,15 +1525,20 @@ func (rc *RegClient) imageImportOCIHandleManifest(ctx context.Context, r ref.Ref
 					mediatype.Docker2Layer, mediatype.Docker2LayerGzip, mediatype.Docker2LayerZstd,
 					mediatype.OCI1Layer, mediatype.OCI1LayerGzip, mediatype.OCI1LayerZstd,
 					mediatype.BuildkitCacheConfig:
-					// known blob media types
-					return rc.imageImportBlob(ctx, r, d, trd)
+					// known blob media types, stream the blob from the tar
+					return rc.imageImportBlob(ctx, r, d, trd.tr)
 				default:
 					// attempt manifest import, fall back to blob import
+					b, err := io.ReadAll(trd.tr)
+					if err != nil {
+						return err
+					}
 					md, err := manifest.New(manifest.WithDesc(d), manifest.WithRaw(b))
 					if err == nil {
 						return rc.imageImportOCIHandleManifest(ctx, r, md, trd, true, child)
 					}
-					return rc.imageImportBlob(ctx, r, d, trd)
+					// the tar reader has been consumed, import the blob from the bytes that were read
+					return rc.imageImportBlob(ctx, r, d, bytes.NewReader(b))
 				}
 			}
 		}
@@ -1624,7 +1630,7 @@ func (rc *RegClient) imageImportOCIHandleManifest(ctx context.Context, r ref.Ref
 			if !trd.processed[filename] && trd.handlers[filename] == nil {
 				func(cd descriptor.Descriptor) {
 					trd.handlers[filename] = func(header *tar.Header, trd *tarReadData) error {
-						return rc.imageImportBlob(ctx, r, cd, trd)
+						return rc.imageImportBlob(ctx, r, cd, trd.tr)
 					}
 				}(cd)
 			}
@@ -1642,7 +1648,7 @@ func (rc *RegClient) imageImportOCIHandleManifest(ctx context.Context, r ref.Ref
 			if !trd.processed[filename] && trd.handlers[filename] == nil {
 				func(d descriptor.Descriptor) {
 					trd.handlers[filename] = func(header *tar.Header, trd *tarReadData) error {
-						return rc.imageImportBlob(ctx, r, d, trd)
+						return rc.imageImportBlob(ctx, r, d, trd.tr)
 					}
 				}(d)
 			}
